@@ -24,7 +24,11 @@ class C22(core.Prop):
             "change the value, or that falls inside the transfer of an isolated flow, changes nothing; (4) a host / link going off kills "
             "the actors of the host at that date (on_exit failed=true), fails remote executions (HostFailure) and communications (NetworkFailure) "
             "at that date; activities started while it is off fail at once; an auto-restart actor reappears at the date the host comes back.  "
-            "NON-TRIVIAL: a profile event falls strictly inside an execution or a transfer, a state event kills / fails something, or the period "
+            "Two cases in five are RESTART scenarios: h0 (speed profile) or l0 (bandwidth / latency profile) goes off and on again once or twice, by a state "
+            "profile or by turn_off / turn_on called from another host, with 1-2 value events (increases and decreases) inside every off interval and "
+            "probes (auto-restarted local actor, remote executions, communications, getters) between the restart and the next value event: the value at t "
+            "is the last point <= t whatever the state in between.  "
+            "NON-TRIVIAL: a probe after a restart that follows a value event, a profile event falls strictly inside an execution or a transfer, a state event kills / fails something, or the period "
             "wraps at least twice.")
     assumptions = ["dates compared with a relative tolerance of 1e-9 (precision/timing); values compared exactly",
                    "at date 0 the first slice of the actors runs before the events of date 0 are applied: observations, the latency of a communication "
@@ -36,7 +40,7 @@ class C22(core.Prop):
                    "and single-point TI profiles are not generated; every TI signature starts with cpu-TI:<class of profile>"]
 
     def strategy(self, tier):
-        return profgen.scenarios(tier)
+        return profgen.all_scenarios(tier)
 
     def check(self, case):
         oc = core.Outcome()
